@@ -20,6 +20,14 @@ def run(tier, seed, replay=None):
                      "between two adaptors the harness inserts its own transparent stream eraser (virtual dispatch, same stop token); it is not represented in the model"],
         trusted_extra=["harness/evt/stream.cpp (builds the real pipeline, manual sources, canonicalises observations, monitors)", "tools/stream.py generator and diff",
                        "g++ 12, ASan/UBSan (vptr check off: double destruction is reported by the tracked-object monitors)"],
-        explanation="Theorems (Props/C13) are over Stream.deliver / Stream.rootStep, the event-level stream calculus (Calc/Stream.lean): see the theorem list. "
-                    "Tie: full-trace equality of the real library and the calculus on generated cases; independent monitors in the harness check cleanup-once, "
-                    "cleanup-after-outstanding-next, result-after-cleanup and the lifetime of every tracked next/cleanup operation object.")
+        explanation="Theorems (Props/C13) over the event-level stream calculus Calc/Stream.lean. Part A, every stream expression whose sources complete inline "
+                    "(all lengths, values, scripted functions, error positions, stop before start or not): inline_run / elements_eq_spec (the consumer receives exactly "
+                    "SExpr.den — range = [lo,hi), transform = map, filter = List.filter, stop_immediately, take_until, type_erase …), fold_eq_spec (reduce_stream's result is "
+                    "the fold, or the stream's / cleanup's error), reducer_throw_spec, den_stop_prefix / stop_ends_early_no_dup_no_invent_partial (a stop request only "
+                    "shortens the sequence; PARTIAL: stop before start). Part B, EVERY expression, script, consumer and sequence of legal external events: "
+                    "cleanup_at_most_once, cleanup_after_outstanding_next, result_after_cleanup / cleanup_once_iff_next_started (from the protocol contract deliver_ok and "
+                    "the root invariant RInv), stop_immediately_abandons_then_awaits. Part C: take_until_destructs_source_op_twice / "
+                    "take_until_destructs_running_source_op — the model, like take_until.hpp trigger_receiver::set_done, destructs sourceOp_ instead of triggerOp_. "
+                    "Tie: full-trace equality of the real library and the calculus on generated cases (stop at a random position of every script); independent "
+                    "monitors in the harness check cleanup-once, cleanup-after-outstanding-next, result-after-cleanup and the lifetime of every tracked next/cleanup "
+                    "operation object (construction/destruction by address, running flag).")
